@@ -70,6 +70,16 @@ class D7(DataClassDictMixin):
     p: NTI
     n: int = 0
 
+class NTJ(NamedTuple):
+    # defaults + a member whose own decoder can raise IndexError (a too short pair)
+    b: Tuple[int, int] = (0, 0)
+    w: int = 1
+
+@dataclass
+class D8(DataClassDictMixin):
+    s: NTJ
+    n: int = 0
+
 @dataclass
 class D4:
     a: float
@@ -77,7 +87,7 @@ class D4:
     i: Inner
 '''
 CLASSES = {"D1": ["a", "b", "c", "d"], "D2": ["a", "e", "l"], "D3": ["a", "u", "t"], "D4": ["a", "m", "i"],
-           "D5": ["raw", "n", "p"], "D6": ["y", "w"], "D7": ["p"]}
+           "D5": ["raw", "n", "p"], "D6": ["y", "w"], "D7": ["p"], "D8": ["s"]}
 
 ASSUMPTIONS = [
     "CrossHair 0.0.110 model of Python and z3 5.1.0",
